@@ -94,6 +94,11 @@ func (h *NFSProcedureHandler) handleSetattr(body io.Reader, reply *RPCReply, aut
 		return nfsErrorWithWcc(reply, NFSERR_INVAL), nil
 	}
 
+	// Enforce the export's maximum file size (0 = unlimited)
+	if limit := h.server.handler.policy.Load().MaxFileSize; limit > 0 && sattr.SetSize && sattr.Size > uint64(limit) {
+		return nfsErrorWithWcc(reply, NFSERR_FBIG), nil
+	}
+
 	node, ok := h.lookupNode(handleVal)
 	if !ok {
 		return nfsErrorWithWcc(reply, NFSERR_STALE), nil
